@@ -52,10 +52,17 @@ RULE = (
     "max_shift (radius >= |s|+2.5 px, and a radius within 0..1 px of the admitted shift), and upsample_factor / max_shift passed as every accepted scalar type "
     "(Python int/float, np.int32/int64/float64 scalars, elements of integer arrays, 0-d arrays, 0-d tensors) which must reproduce the Python-int result; buffer-reuse histories for both backends (the same "
     "array/tensor objects refilled between 7..10 calls through copy_, .data writes, NumPy memory aliased by torch.from_numpy, or views of a larger buffer: reference only, moving only, both, reference := moving, swapped roles, "
-    "interleaved calls on other tensors of the same / another shape; every call judged against its own truth); plus call-site cases (tomography stack alignment, direct-ptychography reference/pairwise shifts). "
+    "interleaved calls on other tensors of the same / another shape; every call judged against its own truth); float32 images on a background of 100..1000 x the contrast; plus call-site cases (tomography stack alignment, direct-ptychography reference/pairwise shifts, "
+    "align_vbf_stack_multiscale in reference / pairwise mode x 1..3 bin levels x running average x initial_shifts none / zero / non-zero with a pre-shifted stack). "
     "non-trivial = applied shift != 0; distinct = (kind, backend, factor, shift class, shape class, dtype, family)"
 )
 ASSUMPTIONS = [
+    "single-precision images on a background (mean >> contrast) are part of the domain ('image contents with a unique correlation peak'); until fixes/C13-3 is applied "
+    "(switch C13_3_APPLIED) the torch estimators are known to fail there (not judged) and the numpy estimator is judged for up >= 2 at mean = 100..110 x contrast with an "
+    "integer-shift bound of 0.01 px and swap antisymmetry within the accuracy bound; with the fix both backends are judged at mean = 100..1000 x contrast with the usual float32 bounds",
+    "align_vbf_stack_multiscale (call site): displacements are constant inside every bin of the coarsest level; one level is judged with the estimator's bound, L levels with L x the sub-pixel "
+    "bound for every shift class (each level registers against the mean of the previously aligned stack; measured <= 0.05 px for integer shifts, <= 0.75 of the bound for sub-pixel shifts); "
+    "pairwise mode is judged up to the common translation it leaves free; a non-zero initial_shifts is handed over together with the stack it was already applied to (the documented contract)",
     "ground truth is exact: spectra lie strictly below Nyquist (relative bandwidth 0.5..0.9) so the phase-ramp translate is the true circular translate; integer shifts of arbitrary images use np.roll",
     "shifts are compared modulo the image size (a circular translation by s and by s+N is the same translation)",
     "tolerances: integer/zero shifts 1e-8 px (numpy float64), 1e-3 px (numpy float32 and torch float64: the torch port computes in float32 internally), "
@@ -87,6 +94,7 @@ REQUIRED_COUNTERS = [
     "eval:fft_variant_disagrees_int_f64",
     "eval:shift_error_near_search_radius_sub_up8",
     "eval:history_shift_error_int_f32",
+    "eval:shift_error_int_f32ped",
     "eval:scalar_form_changes_result_int_f64",
     "eval:scalar_form_changes_result_int_f32",
     "eval:history_shift_error_sub_up8",
@@ -383,7 +391,10 @@ def _run_numpy(spec, idx, ctx, rng, shape, s, im, ref, bw):
     r0 = np.asarray(ccs(b, b, upsample_factor=up), dtype=np.float64)
     j.close("identical_nonzero", _absmax(r0), j.tol0, lambda: "identical images shape=%s -> %s" % (shape, r0.tolist()), "real")
     rs = np.asarray(ccs(b, a, upsample_factor=up), dtype=np.float64)
-    if spec["sclass"] != "half":
+    if spec.get("pedestal") and not C13_3_APPLIED and kind == "sub":
+        # unrepaired code on a background: the two estimates carry independent float32 rounding noise (measured 8e-3 px each)
+        j.close("swap_not_negated", _absmax(T.wrap(r + rs, shape)), 2 * j.tol, lambda: "shape=%s s=%s r(ref,im)=%s r(im,ref)=%s" % (shape, s.tolist(), r.tolist(), rs.tolist()), "real", k=kind)
+    elif spec["sclass"] != "half":
         j.close("swap_not_negated", _absmax(T.wrap(r + rs, shape)), j.tol0, lambda: "shape=%s s=%s r(ref,im)=%s r(im,ref)=%s" % (shape, s.tolist(), r.tolist(), rs.tolist()), "real")
     else:
         ctx.count("swap_not_judged_half_integer")
